@@ -28,6 +28,29 @@ func programs(thorough bool) (two, three []*program) {
 	add(&two, single, "Pair same type||Decode", T(P(1, 0, 0)), T(D(1, 0)))
 	add(&two, single, "Pair||Excl", T(P(1, 0, 1)), T(X(1, 1)))
 
+	// --- one reference, TWO result types: the calls are independent (keys are (reference, type))
+	add(&two, single, "Excl(T0)||Excl(T1)", T(X(1, 0)), T(X(1, 1)))
+	add(&two, single, "Decode(T0)||Excl(T1)", T(D(1, 0)), T(X(1, 1)))
+	add(&two, single, "Excl(T0);Excl(T1)||Excl(T1)", T(X(1, 0), X(1, 1)), T(X(1, 1)))
+	add(&two, single, "Pair(T0,T1)||Excl(T0)", T(P(1, 0, 1)), T(X(1, 0)))
+	add(&two, single, "Pair(T0,T1)||Excl(T1);Excl(T0)", T(P(1, 0, 1)), T(X(1, 1), X(1, 0)))
+	add(&two, single, "Excl(T0)||Excl(T2)", T(X(1, 0)), T(X(1, 2)))
+
+	// the decode function of type T0 exclusively decodes the same reference as type T1
+	cross := mk("cross-type", 1, true)
+	cross.body[[2]int{1, 0}] = T(X(1, 1))
+	cross.build()
+	add(&two, cross, "Excl(T0) alone", T(X(1, 0)))
+	add(&two, cross, "Excl(T0)||Excl(T1)", T(X(1, 0)), T(X(1, 1)))
+	add(&two, cross, "Excl(T0)||Decode(T1)", T(X(1, 0)), T(D(1, 1)))
+
+	// two page decoders exclusively decode object 3 under different types
+	twoviews := mk("two views of 3", 3, true)
+	twoviews.body[[2]int{1, 0}] = T(X(3, 0))
+	twoviews.body[[2]int{2, 0}] = T(X(3, 1))
+	twoviews.build()
+	add(&three, twoviews, "Decode(1)||Decode(2) (2 goroutines, sampled)", T(D(1, 0)), T(D(2, 0)))
+
 	// --- nil interface results (F19) and failing decoders
 	nilres := mk("nil-result", 1, true)
 	nilres.nilv[[2]int{1, 2}] = true
@@ -44,6 +67,7 @@ func programs(thorough bool) (two, three []*program) {
 	add(&two, failing, "Excl;Excl||Excl", T(X(1, 0), X(1, 0)), T(X(1, 0)))
 	add(&two, failing, "Decode||Excl", T(D(1, 0)), T(X(1, 0)))
 	add(&two, failing, "Decode(T1)||Excl(T0)", T(D(1, 1)), T(X(1, 0)))
+	add(&two, failing, "Excl(T0 fails)||Excl(T1)", T(X(1, 0)), T(X(1, 1)))
 
 	// --- chain 1 -> 2 (F14)
 	chain := mk("chain 1->2", 2, true)
@@ -55,6 +79,7 @@ func programs(thorough bool) (two, three []*program) {
 	add(&two, chain, "Excl(1)||Decode(2)", T(X(1, 0)), T(D(2, 0)))
 	add(&two, chain, "Excl(2)||Decode(1)", T(X(2, 0)), T(D(1, 0)))
 	add(&two, chain, "Pair(2)||Decode(1)", T(P(2, 0, 1)), T(D(1, 0)))
+	add(&two, chain, "Excl(1,T0)||Excl(2,T1)", T(X(1, 0)), T(X(2, 1)))
 	if thorough {
 		add(&two, chain, "Excl(1)||Excl(2)", T(X(1, 0)), T(X(2, 0)))
 		add(&two, chain, "Excl(1)||Excl(1)", T(X(1, 0)), T(X(1, 0)))
@@ -149,5 +174,6 @@ func programs(thorough bool) (two, three []*program) {
 	add(&three, failing, "Excl||Excl||Excl", T(X(1, 0)), T(X(1, 0)), T(X(1, 0)))
 	add(&three, form, "page1||page2||form", T(D(1, 0)), T(D(2, 0)), T(X(3, 0)))
 	add(&three, nilres, "Excl||Excl||Decode", T(X(1, 2)), T(X(1, 2)), T(D(1, 2)))
+	add(&three, single, "Excl(T0)||Excl(T1)||Excl(T1)", T(X(1, 0)), T(X(1, 1)), T(X(1, 1)))
 	return two, three
 }
